@@ -73,6 +73,28 @@ func runE6More(p *Prog, r *Report) {
 					_ = cl
 				}
 				if !isInitial {
+					// started inside the file: the ranges the parser computes are positions of the
+					// file only if the bytes it is given are the file's bytes at that position. A
+					// decoded value (X.AsString() of an evaluated expression) differs from the
+					// source wherever the source has an escape sequence.
+					decoded := ""
+					ast.Inspect(fn.InlineLocals(x.Args[srcIdx], 3), func(z ast.Node) bool {
+						if c, ok := z.(*ast.CallExpr); ok && lastSel(c.Fun) == "AsString" {
+							decoded = exprStr(c)
+						}
+						return true
+					})
+					if !e6WithDecoded {
+						decoded = ""
+					}
+					if decoded != "" && !lengthAgreementGuard(fn, x, decoded) {
+						r.Add("E6.decoded-text-positions", fn.Name, key+" on "+decoded, p.Pos(x), Violated,
+							"the parser is started at a position inside the file but is given the decoded value "+decoded+", not the source bytes: when the quoted source contains an escape sequence (\\\", \\n, \\u…) the decoded text is shorter than the source, so every range the parser reports ends too early or on a line that does not exist", true)
+						return true
+					}
+					if decoded != "" {
+						r.Add("E6.decoded-text-positions", fn.Name, key+" on "+decoded, p.Pos(x), OK, "reached only when the decoded text is as long as the quoted source (no escape sequences)", true)
+					}
 					r.Add("E6.lex-origin", fn.Name, key, p.Pos(x), OK, "started at a computed position (not judged here: the position arithmetic is E6.coherent-shift)", false)
 					return true
 				}
@@ -413,4 +435,59 @@ func onlyFns(run func(p *Prog, r *Report), countName string, pats ...string) fun
 		r.ExpectMin(countName, kept, 1)
 		r.Clauses = append(r.Clauses, tmp.Clauses...)
 	}
+}
+
+// lengthAgreementGuard: the call is reached only under a comparison of len(<decoded>) with a
+// byte distance of a range (…End.Byte - …Start.Byte …), i.e. the decoded text was checked to
+// be as long as its source.
+func lengthAgreementGuard(fn *Func, at ast.Node, decoded string) bool {
+	found := false
+	for _, a := range fn.GuardsAt(at).AllAtoms() {
+		if a == nil || a.E == nil {
+			continue
+		}
+		be, ok := ast.Unparen(a.E).(*ast.BinaryExpr)
+		if !ok || (be.Op != token.EQL && be.Op != token.NEQ) {
+			continue
+		}
+		if (be.Op == token.EQL) != a.Pol {
+			continue // we need equality to hold on the way to the call
+		}
+		txt := exprStr(fn.InlineLocals(be, 3))
+		if strings.Contains(txt, "len("+decoded+")") && strings.Contains(txt, ".End.Byte") && strings.Contains(txt, ".Start.Byte") {
+			found = true
+		}
+	}
+	return found
+}
+
+// e6WithDecoded: E6.decoded-text-positions is part of the run (C02, C18, C09, C10: the
+// properties that promise real ranges for reference origins / targets); the completion
+// properties that share runE6More do not depend on it.
+var e6WithDecoded bool
+
+func runE6MoreWithDecoded(p *Prog, r *Report) {
+	e6WithDecoded = true
+	defer func() { e6WithDecoded = false }()
+	runE6More(p, r)
+}
+
+// runDecodedTextPositions: only that rule (for properties that do not take the rest of E6.more).
+func runDecodedTextPositions(p *Prog, r *Report) {
+	tmp := newReport(r.Prop)
+	runE6MoreWithDecoded(p, tmp)
+	n := 0
+	for _, o := range tmp.Obligs {
+		if o.Rule != "E6.decoded-text-positions" {
+			continue
+		}
+		parts := strings.SplitN(o.Key, "|", 3)
+		if len(parts) != 3 {
+			continue
+		}
+		n++
+		r.Add(o.Rule, parts[1], parts[2], o.Pos, o.Status, o.Detail, o.NonTrivial)
+	}
+	r.Counts["E6.parsers-given-decoded-text"] = n
+	r.Clauses = append(r.Clauses, "E6.decoded-text-positions: a parser started at a position inside the file is given the file's bytes, or a decoded value only under a guard that its length equals the byte length of the quoted source")
 }
